@@ -330,9 +330,10 @@ Qed.
 (** (a) constant resolution from time 0: the time after n ticks is the correctly rounded n / tpb, the grid stays
     anchored at 0.0 and the off-grid test never fires - for all tpb <= 2^20 and n <= 2^32 ticks (51 days at 480 ticks
     per beat and 120 bpm).  The bound is what the test `> 1e-6` allows: position = RN (RN (k/tpb) * tpb) is only known
-    to be within k (2^-52 + 2^-106) of k, which is below 2^-20 <= RN(1e-6) exactly for k < 2^32.  (For much larger k the
-    position can really be more than 1e-6 away from k; the code then re-anchors at the current time, which is harmless
-    for the music but is not the statement below.) *)
+    to be within k (2^-52 + 2^-106) of k, which is below 2^-20 <= RN(1e-6) exactly for k < 2^32.  The bound is sharp up
+    to a small factor: e.g. tpb = 480, k = 545317434769 (about 2^39): (k / 480) * 480 - k = 6.1e-5 > 1e-6 in binary64, so
+    there the code re-anchors the grid at the current time - harmless for the music (the time is still origin + m / tpb
+    with one addition, retick_run_exact's form) but not the statement below; 2^39 ticks are 18 years at 960 ticks/s. *)
 Theorem tick_run_exact (tpb : Z) (n : nat) :
   (1 <= tpb <= 2^20)%Z -> (1 <= n)%nat -> (Z.of_nat n <= 2^32)%Z ->
   Nat.iter n (tick_step tpb) clock0 = (RN (IZR (Z.of_nat n) / IZR tpb), (0, Some tpb)).
